@@ -190,37 +190,51 @@ def run(tier, repo):
     rows, order = table_rules(rp, F, repo)
     rp.floor("registry_rows", len(rows), 352)
 
-    # lookups
-    def is_get_of(e, arg_pred):
-        e = strip(e)
-        return e["k"] == "mcall" and e.get("path") == "phf::map::Map::<K, V>::get" and path_of(e["recv"]) == "tls_ciphers::CIPHERS" and len(e["args"]) == 1 and arg_pred(strip_ref(e["args"][0]))
-    def is_param(f, idx=0):
-        pid = f["params"][idx].get("id")
-        return lambda a: a.get("k") == "local" and a["id"] == pid
-    def is_param_field0(f, idx=0):
-        pid = f["params"][idx].get("id")
-        return lambda a: a.get("k") == "field" and a["name"] == "0" and strip_ref(a["x"]).get("k") == "local" and strip_ref(a["x"])["id"] == pid
+    # lookups: each body is evaluated symbolically (local helpers and delegations inlined) and its canonical form is compared
+    from .c15 import body_sym
+    from ..pir import sym_str
+    GET = "phf::map::Map::<K, V>::get"
+    TAB = ["unit", "tls_ciphers::CIPHERS"]
+    def get_of(key):
+        return ["mcall", GET, [TAB, key]]
+    def find_by_name(who):
+        return ["mcall", "core::iter::traits::iterator::Iterator::find", [["mcall", "phf::map::Map::<K, V>::values", [TAB]], ["lam", 1, ["op", "==", ["fld", ["lp", 0], "name"], who]]]]
+    def unwrap_ok_or(s):
+        if s[0] == "mcall" and s[1] in ("core::option::Option::<T>::ok_or", "core::option::Option::<T>::ok_or_else") and len(s[2]) == 2:
+            return s[2][0]
+        return None
+    def sym_of(f):
+        try:
+            return body_sym(F, f)
+        except Exception as ex:
+            return ["opaque", str(ex)]
+    def eq_name_lam(s, who):
+        """find(values(CIPHERS), |c| c.name == who) with the comparison written either way round"""
+        if s == find_by_name(who):
+            return True
+        alt = find_by_name(who)
+        alt[2][1][2] = ["op", "==", who, ["fld", ["lp", 0], "name"]]
+        return s == alt
     f = F.fn("tls_ciphers::TlsCipherSuite::from_id")
-    rp.check(f is not None and is_get_of(f["hir"], is_param(f)), "LOOKUPS", "from_id", site(f) if f else "src/tls_ciphers.rs", "from_id is not CIPHERS.get(&id)")
+    s = sym_of(f) if f else None
+    rp.check(f is not None and s == get_of(["p", "a0"]), "LOOKUPS", "from_id", site(f) if f else "src/tls_ciphers.rs", "from_id is not CIPHERS.get(&id)", found=sym_str(s) if s else None)
     for f in F.hir_fns():
         if f.get("impl_trait_path") == "core::convert::TryFrom" and f.get("impl_self") == "&'static tls_ciphers::TlsCipherSuite" and f.get("name") == "try_from":
-            b = strip(f["hir"])
             arg = f["inputs"][0]
-            inner = strip(b["recv"]) if b["k"] == "mcall" and b.get("path") in ("core::option::Option::<T>::ok_or", "core::option::Option::<T>::ok_or_else") else None
+            s = sym_of(f)
+            inner = unwrap_ok_or(s)
             if arg == "u16":
-                rp.check(inner is not None and is_get_of(inner, is_param(f)), "LOOKUPS", "TryFrom<u16>", site(f), "TryFrom<u16> is not CIPHERS.get(&value).ok_or(..)")
+                rp.check(inner == get_of(["p", "a0"]), "LOOKUPS", "TryFrom<u16>", site(f), "TryFrom<u16> is not CIPHERS.get(&value).ok_or(..)", found=sym_str(s))
             elif arg == "tls_handshake::TlsCipherSuiteID":
-                rp.check(inner is not None and is_get_of(inner, is_param_field0(f)), "LOOKUPS", "TryFrom<TlsCipherSuiteID>", site(f), "TryFrom<TlsCipherSuiteID> is not CIPHERS.get(&value.0).ok_or(..)")
+                rp.check(inner == get_of(["fld", ["p", "a0"], "0"]), "LOOKUPS", "TryFrom<TlsCipherSuiteID>", site(f), "TryFrom<TlsCipherSuiteID> is not CIPHERS.get(&value.0).ok_or(..)", found=sym_str(s))
             elif "str" in arg:
-                rp.check(inner is not None and name_find(inner, f), "LOOKUPS", "TryFrom<&str>", site(f), "TryFrom<&str> is not an exact whole-name comparison over all entries")
+                rp.check(inner is not None and eq_name_lam(inner, ["p", "a0"]), "LOOKUPS", "TryFrom<&str>", site(f), "TryFrom<&str> is not an exact whole-name comparison over all entries", found=sym_str(s))
     f = F.fn("tls_handshake::TlsCipherSuiteID::get_ciphersuite")
-    ok = False
-    if f:
-        b = strip(f["hir"])
-        ok = b["k"] == "call" and path_of(b["f"]) == "tls_ciphers::TlsCipherSuite::from_id" and is_param_field0(f)(strip_ref(b["args"][0]))
-    rp.check(ok, "LOOKUPS", "get_ciphersuite", site(f) if f else "src/tls_handshake.rs", "get_ciphersuite is not from_id(self.0)")
+    s = sym_of(f) if f else None
+    rp.check(f is not None and s == get_of(["fld", ["p", "self"], "0"]), "LOOKUPS", "get_ciphersuite", site(f) if f else "src/tls_handshake.rs", "get_ciphersuite is not from_id(self.0)", found=sym_str(s) if s else None)
     f = F.fn("tls_ciphers::TlsCipherSuite::from_name")
-    rp.check(f is not None and name_find(f["hir"], f), "LOOKUPS", "from_name", site(f) if f else "src/tls_ciphers.rs", "from_name is not an exact whole-name comparison (==) over all entries")
+    s = sym_of(f) if f else None
+    rp.check(f is not None and eq_name_lam(s, ["p", "a0"]), "LOOKUPS", "from_name", site(f) if f else "src/tls_ciphers.rs", "from_name is not an exact whole-name comparison (==) over all entries", found=sym_str(s) if s else None)
 
     # derived sizes
     f = F.fn("tls_ciphers::TlsCipherSuite::enc_key_size")
